@@ -16,6 +16,8 @@ const TEXTS: &[&str] = &[
     "-(x^2)/(1+exp(-y)) + tanh(z) * PI",
     // Horner scheme nested 48 levels deep: many threads are deep inside a deep expression at once
     "HORNER",
+    // 24 distinct variables (beyond the inline capacity of 16), each used asymmetrically
+    "q01+2*q02-3*q03+4*q04-5*q05+6*q06-7*q07+8*q08-9*q09+10*q10-11*q11+12*q12-13*q13+14*q14-15*q15+16*q16-17*q17+18*q18-19*q19+20*q20-21*q21+22*q22-23*q23+24*q24",
     // 70 operands on one level: beyond the single-word operand tracker and the inline SmallVecs
     "a1+a2*a3-a4/2+a5*a6+a7-a8*3+a9+a1*a2-a3+a4*a5/4+a6-a7*a8+a9*2+a1-a2+a3*a4-a5+a6/5+a7*a8-a9+1+a1*a1-a2*a2+a3-a4+a5*6-a6+a7/7+a8-a9*a9+a1+a2+a3-a4*a5+a6*a7-a8/8+a9",
 ];
@@ -30,6 +32,10 @@ fn closed_form(i: usize, v: &[f64]) -> Option<f64> {
             let (y, z, alpha) = (v[0], v[1], v[2]);
             // unary minus binds tighter than ^
             alpha * (z * z + 1.0).ln() + 2.0 * ((-z).powf(2.0) + (4.0 * y).sin())
+        }
+        6 => {
+            // variables sorted q01..q24
+            (0..24).map(|i| (i as f64 + 1.0) * v[i] * if i >= 2 && i % 2 == 0 { -1.0 } else { 1.0 }).sum()
         }
         5 => {
             let x = v[0];
